@@ -4,9 +4,16 @@ set -e
 cd "$(dirname "$0")"
 export GOFLAGS=-mod=mod GOPROXY=off GOSUMDB=off GOTOOLCHAIN=local
 mkdir -p _build evidence
+python3 - <<EOF
+import glob,os
+os.chdir("coq")
+vs=sorted(glob.glob("theories/**/*.v",recursive=True))
+open("_CoqProject","w").write("-Q theories Larking\n"+"\n".join(vs)+"\n")
+EOF
 ( cd coq && coq_makefile -f _CoqProject -o Makefile && timeout 3000 make -j16 ) > _build/setup-coq.log 2>&1 || { tail -30 _build/setup-coq.log; exit 1; }
 rm -rf _build/extract && mkdir -p _build/extract
-( cd _build/extract && timeout 900 coqc -Q ../../coq/theories Larking ../../coq/extract/Extract.v ) > _build/setup-extract.log 2>&1 || { tail -30 _build/setup-extract.log; exit 1; }
+python3 lib/mkextract.py coq/extract/parts _build/extract/Extract.v
+( cd _build/extract && timeout 900 coqc -Q ../../coq/theories Larking Extract.v ) > _build/setup-extract.log 2>&1 || { tail -30 _build/setup-extract.log; exit 1; }
 ./ocaml/build.sh "$PWD/_build/extract" "$PWD/_build/modelrun"
 cp /repo/go.sum harness/go.sum
 ( cd harness && go build -tags verif -o ../_build/verifh . )
